@@ -31,6 +31,57 @@ NUM_FORMATS = INT_FORMATS + ["float"]
 FMT_MAX = {"uint8": 2 ** 8 - 1, "uint16": 2 ** 16 - 1, "uint32": 2 ** 32 - 1, "uint64": 2 ** 64 - 1, "int": 2 ** 31 - 1}
 
 
+# ---------------------------------------------------------------- the decimal context the implementation lives in
+class Ambient:
+    """The thread's decimal context as the library sees it: ONE context object that lives across all calls of a run, as in a
+    long-lived worker thread - signal flags left by earlier calls stay, nothing resets it between cases.  The harness does its
+    own Decimal work (readings, oracle) in a different context, so the only things that ever touch this one are the library
+    and the explicit caller-side changes of the `ambient` stream."""
+
+    SIGNALS = ["Clamped", "DivisionByZero", "Inexact", "InvalidOperation", "Overflow", "Rounded", "Subnormal", "Underflow"]
+
+    def __init__(self):
+        self.pristine()
+
+    def pristine(self):
+        self.ctx = decimal.DefaultContext.copy()          # what a new thread starts with
+
+    def call(self, fn):
+        mine = decimal.getcontext()
+        decimal.setcontext(self.ctx)
+        try:
+            return fn()
+        finally:
+            self.ctx = decimal.getcontext()
+            decimal.setcontext(mine)
+
+    def snapshot(self):
+        c = self.ctx
+        return dict(flags=[n for n in self.SIGNALS if c.flags[getattr(decimal, n)]],
+                    traps=[n for n in self.SIGNALS if c.traps[getattr(decimal, n)]],
+                    prec=c.prec, rounding=c.rounding, Emax=c.Emax, Emin=c.Emin, clamp=c.clamp)
+
+    def restore(self, d):
+        self.ctx = decimal.Context(prec=d["prec"], rounding=d["rounding"], Emin=d["Emin"], Emax=d["Emax"], capitals=1, clamp=d["clamp"],
+                                   flags=[getattr(decimal, n) for n in d["flags"]], traps=[getattr(decimal, n) for n in d["traps"]])
+
+    def change(self, mod):
+        """a caller-side change: {'flags+': [...], 'traps+': [...], 'traps-': [...], 'prec': n, 'rounding': r, 'Emax': e, 'Emin': e, 'clamp': c}"""
+        c = self.ctx
+        for n in mod.get("flags+", []):
+            c.flags[getattr(decimal, n)] = True
+        for n in mod.get("traps+", []):
+            c.traps[getattr(decimal, n)] = True
+        for n in mod.get("traps-", []):
+            c.traps[getattr(decimal, n)] = False
+        for k in ("prec", "rounding", "Emax", "Emin", "clamp"):
+            if k in mod:
+                setattr(c, k, mod[k])
+
+
+AMBIENT = Ambient()
+
+
 # ---------------------------------------------------------------- implementation side
 class Impl:
     """One real Service with one real Characteristic whose metadata is set per case."""
@@ -62,18 +113,25 @@ class Impl:
     def run(self, fmt, mn, mx, st, val, direct=False):
         from aiohomekit.exceptions import FormatError
         self.set(fmt, mn, mx, st)
-        try:
-            if direct:
-                from aiohomekit.model.characteristics.characteristic import check_convert_value
-                return self.canon(check_convert_value(val, self.char))
-            out = self.svc.build_update({self.ctype: val})
-            if len(out) != 1 or out[0][0] != 1 or out[0][1] != self.char.iid:
-                return "ok other:shape"
-            return self.canon(out[0][2])
-        except FormatError:
-            return "err format"
-        except Exception as e:  # noqa
-            return "other:" + type(e).__name__
+
+        def library_call():
+            try:
+                if direct:
+                    from aiohomekit.model.characteristics.characteristic import check_convert_value
+                    return check_convert_value(val, self.char), None
+                return self.svc.build_update({self.ctype: val}), None
+            except FormatError:
+                return None, "err format"
+            except Exception as e:  # noqa
+                return None, "other:" + type(e).__name__
+        out, err = AMBIENT.call(library_call)
+        if err is not None:
+            return err
+        if direct:
+            return self.canon(out)
+        if len(out) != 1 or out[0][0] != 1 or out[0][1] != self.char.iid:
+            return "ok other:shape"
+        return self.canon(out[0][2])
 
 
 def fl(x: float) -> str:
@@ -488,6 +546,48 @@ def driver_can_align(case):
     return not any(x and x.as_tuple().exponent - low > 5000 for x in (c, off))
 
 
+DEFAULT_AMBIENT = dict(flags=[], traps=["DivisionByZero", "InvalidOperation", "Overflow"], prec=28, rounding="ROUND_HALF_EVEN",
+                       Emax=999999, Emin=-999999, clamp=0)
+# what may have happened in the thread before a call.  ("G", case) = an earlier call of the library with that case;
+# ("A", change) = the CALLER changed its decimal context (FloatOperation is left out: a caller who traps it has asked for
+# floats to be refused)
+AMBIENT_PREFIXES = (
+    [[("G", ("float", None, None, None, g))] for g in ("abc", "", "12,5", None, float("nan"), "inf")]
+    + [[("G", ("uint8", 0, 100, 1, "x")), ("G", ("float", None, None, 0.5, "1e1000000"))],
+       [("G", ("float", None, None, "1e-999999", "1e10"))],                       # decimal.Overflow inside the library
+       [("G", ("float", 0, 100, 0.1, 27.95))],                                     # a valid call leaves Inexact / Rounded behind
+       [("G", ("float", None, None, 0.5, "1e-1000000")), ("G", ("bool", None, None, None, 10 ** 4301))]]
+    + [[("A", {"flags+": [n]})] for n in Ambient.SIGNALS]
+    + [[("A", {"flags+": Ambient.SIGNALS})]]
+    + [[("A", {"traps+": [n]})] for n in ("Inexact", "Rounded", "Subnormal", "Underflow", "Clamped")]
+    + [[("A", {"traps-": [n]})] for n in ("InvalidOperation", "Overflow", "DivisionByZero")]
+    + [[("A", {"traps-": ["InvalidOperation", "Overflow", "DivisionByZero"]})]]
+    + [[("A", {"prec": p})] for p in (1, 2, 6, 50)]
+    + [[("A", {"rounding": r})] for r in ("ROUND_DOWN", "ROUND_UP", "ROUND_FLOOR", "ROUND_CEILING", "ROUND_HALF_UP", "ROUND_HALF_DOWN", "ROUND_05UP")]
+    + [[("A", {"Emax": 10})], [("A", {"Emax": 308, "Emin": -308})], [("A", {"Emin": -3})], [("A", {"clamp": 1})],
+       [("A", {"prec": 3, "rounding": "ROUND_DOWN", "traps+": ["Inexact", "Rounded", "Subnormal"], "Emax": 20, "Emin": -20, "clamp": 1})],
+       [("A", {"traps+": ["Inexact"]}), ("G", ("float", None, None, None, "abc"))]])
+AMBIENT_CASES = [("float", 10, 38, 0.5, 27.26), ("float", 7.2, 33.4, 0.1, 27.95), ("float", 0, 100, 0.1, "27.95"), ("float", None, None, None, 27.3),
+                 ("float", None, None, 0.5, "1e-1000000"), ("float", None, None, None, "1e-1000000"), ("float", 4.5, 35.6, 5, 28.3),
+                 ("float", None, None, 0.01, "2.675"), ("float", None, None, 1e-300, "1e300"), ("float", None, None, None, "1e400"),
+                 ("float", None, None, 0.5, "1e1000000"), ("float", None, None, None, "abc"), ("float", 0, 100, 1, None),
+                 ("uint8", 0, 100, 1, 28), ("uint8", 0, 100, 1, 28.5), ("uint8", 0, 100, 1, "28.5"), ("uint8", None, None, None, "2.7"),
+                 ("uint8", None, None, None, "2.5"), ("uint8", None, None, None, "3.5"), ("int", None, None, None, "-2.5"),
+                 ("int", -50, 50, 0.5, "-2.75"), ("uint16", 0, 1000, 7, "4682.501"), ("uint32", 0, 4294967295, 1, 4294967295),
+                 ("uint32", 0, 4294967295, 0.1, 1234567), ("uint64", None, None, 3, 2 ** 64 - 1), ("uint64", None, None, None, "1e400"),
+                 ("int", None, None, 2, -5), ("uint8", 0, 100, 1, "abc"), ("bool", None, None, None, "yes"), ("bool", None, None, None, 2)]
+
+
+def gen_ambient(tier):
+    """-> (cases, {index: prefix}): every case of AMBIENT_CASES after every prefix, each time starting from a fresh thread context"""
+    cases, pre = [], {}
+    for px in AMBIENT_PREFIXES:
+        for c in AMBIENT_CASES:
+            pre[len(cases)] = px
+            cases.append(c)
+    return cases, pre
+
+
 def dangerous(case):
     """integer format, no effective maximum, astronomically large value: code without the magnitude guard builds the integer
     (seconds to forever, gigabytes) - such cases run in a child process with a deadline"""
@@ -614,20 +714,27 @@ class HistImpl:
             return None
         if o[0] == "R":
             c = self.chars[o[1]]
+            def report():
+                try:
+                    if o[3] == "setter":
+                        c.value = o[2]
+                    else:
+                        c.set_value(o[2])
+                except Exception as e:  # noqa
+                    return "report-raised:" + type(e).__name__
+                return None
+            return AMBIENT.call(report)
+
+        def prepare():
             try:
-                if o[3] == "setter":
-                    c.value = o[2]
-                else:
-                    c.set_value(o[2])
+                return self.svc.build_update({self.types[k]: v for k, v in o[1]}), None
+            except FormatError:
+                return None, "err"
             except Exception as e:  # noqa
-                return "report-raised:" + type(e).__name__
-            return None
-        try:
-            out = self.svc.build_update({self.types[k]: v for k, v in o[1]})
-        except FormatError:
-            return "err"
-        except Exception as e:  # noqa
-            return "other:" + type(e).__name__
+                return None, "other:" + type(e).__name__
+        out, err = AMBIENT.call(prepare)
+        if err is not None:
+            return err
         if not isinstance(out, list):
             return "other:not-a-list"
         words = ["ok"]
@@ -791,6 +898,7 @@ def hist_from_json(j):
 
 def run_history(ops):
     """fresh objects; -> (iids, [result or None per op])"""
+    AMBIENT.pristine()          # a history is the life of one thread from its start: flags left by its own calls stay
     h = HistImpl()
     return [c.iid for c in h.chars], [h.apply(o) for o in ops]
 
@@ -980,64 +1088,155 @@ def run(ctx):
         else:
             seen_keys[key] += 1
 
-    replay_case = None
+    add_violation = add
+    replay_case, replay_ambient = None, None
     if ctx.get("replay"):
         import json
         rp = json.load(open(ctx["replay"]))
         if rp.get("case_json") is not None:
             replay_case = tuple(rp["case_json"])
+            replay_ambient = rp.get("ambient")
         if rp.get("history_json") is not None:
             hist_stream(ctx, drv, cov, add, [hist_from_json(rp["history_json"])])
             return dict(coverage=cov.to_dict(), violations=viols)
+    AMBIENT.pristine()
     if replay_case is not None:
         streams = [("replay", [replay_case])]
+        pre = {0: [("A", replay_ambient)]} if replay_ambient else {}
     else:
+        amb_cases, amb_pre = gen_ambient(tier)
         streams = [("grid", gen_grid(tier)), ("num", gen_num(tier, rng(seed, "c14num"))), ("bad", gen_bad(tier, rng(seed, "c14bad"))),
-                   ("extreme", gen_extreme(tier))]
+                   ("extreme", gen_extreme(tier)), ("ambient", amb_cases)]
+        pre = None
+        # the thread has already seen (and rejected) a value before the first case: whatever that leaves behind stays
+        impl.run("float", None, None, None, "abc")
     xpairs = []          # (request line, raw driver answer) of the whole run, for the vm_compute cross-check
+
+    def judge(case, got):
+        return oracle(*case, got)
+
+    observations = {}          # key -> dict(count, example): dependence on a decimal context the CALLER configured
+
+    def process(sname, idx, case, m, got, ambient_before, caller_touched=False):
+        fmt, mn, mx, st, val = case
+
+        def add(key, what, found, **payload):              # noqa: F811 - shadows the run-level add for this case
+            # A caller who enables traps or changes rounding / precision / exponent limits / flags of the thread's decimal context
+            # changes process state C14 does not quantify over: dependence on THAT is an observation, not a violation.
+            # Dependence on what the library's own earlier calls left behind stays a violation (history inside the property).
+            if caller_touched and key.startswith("ambient-dependent:"):
+                o = observations.setdefault(key, dict(count=0, example=None))
+                o["count"] += 1
+                if o["example"] is None:
+                    o["example"] = dict(case=payload.get("case"), caller_context=payload.get("ambient"), result=payload.get("impl"),
+                                        result_in_default_context=payload.get("impl_fresh_context", "satisfies the property"), what=what[:400])
+                return
+            add_violation(key, what, found, **payload)
+        orc = judge(case, got)
+        crepr = dict(format=fmt, minValue=repr(mn), maxValue=repr(mx), minStep=repr(st), value=short(val, 300))
+        cj = json_case(case)
+        if orc is not None:
+            key, what = orc
+            # does the failure need the decimal context the call found?  re-run in the context of a brand-new thread
+            if not dangerous(case):
+                kept = AMBIENT.ctx
+                try:
+                    AMBIENT.pristine()
+                    clean = judge(case, impl.run(*case)) is None
+                    part = ""
+                    if clean:
+                        AMBIENT.restore(dict(ambient_before, flags=[]))
+                        part = "flags" if judge(case, impl.run(*case)) is None else "settings"
+                finally:
+                    AMBIENT.ctx = kept
+                if clean:
+                    key = f"ambient-dependent:{part}:{key}"
+                    what = (f"with the thread's decimal context in the state {ambient_before} (left by earlier calls / set by the caller): "
+                            + what + " - in a fresh context the same call is fine")
+            add(key, what, True, stream=sname, case=crepr, case_json=cj, ambient=ambient_before, impl=got, model=m)
+        elif got != m:
+            # the implementation satisfies the property here but left the model.  First: is it the thread's decimal context?
+            # the same call giving two different values in two contexts is a failing input by itself
+            explained = False
+            if not dangerous(case):
+                kept = AMBIENT.ctx
+                try:
+                    AMBIENT.pristine()
+                    clean_got = impl.run(*case)
+                finally:
+                    AMBIENT.ctx = kept
+                if clean_got != got:
+                    explained = True
+                    add("ambient-dependent:result-changes", f"{fmt} min={mn!r} max={mx!r} step={st!r} value={short(val)} gives {got[:60]} with the "
+                        f"thread's decimal context in the state {ambient_before}, but {clean_got[:60]} in a fresh context: the prepared value "
+                        f"must depend on the characteristic and the value only", True, stream=sname, case=crepr, case_json=cj,
+                        ambient=ambient_before, impl=got, impl_fresh_context=clean_got, model=m)
+            # otherwise look around for a failing input
+            near = None
+            if not explained and isinstance(val, (int, float)) and not isinstance(val, bool) and val == val and abs(val) != math.inf:
+                for dv in (1, -1, 0.5, -0.5, 10, -10, 1000, -1000):
+                    try:
+                        v2 = val + dv
+                    except (OverflowError, ValueError, TypeError):
+                        continue                     # e.g. a huge int plus a float
+                    g2 = impl.run(fmt, mn, mx, st, v2)
+                    o2 = judge((fmt, mn, mx, st, v2), g2)
+                    if o2 is not None:
+                        near = (v2, g2, o2)
+                        break
+            if near:
+                add(near[2][0], near[2][1], True, stream=sname, case=dict(crepr, value=short(near[0], 300)),
+                    case_json=json_case((fmt, mn, mx, st, near[0])), ambient=ambient_before, impl=near[1])
+            elif not explained:
+                add(f"{sname}:model-mismatch", f"implementation {got[:80]} != model {m[:80]} on {short(case, 300)}", False, stream=sname, case=crepr,
+                    case_json=cj, ambient=ambient_before, impl=got, model=m, broken="correspondence Model/Convert.v <-> check_convert_value")
+        nontrivial = fmt == "bool" or mn is not None or mx is not None or bool(st) or got.startswith("err")
+        cov.case(short(case, 10 ** 9) + (repr(ambient_before) if sname == "ambient" else ""), nontrivial,
+                 sample=dict(stream=sname, **crepr, impl=got) if idx % 4999 == 7 else None,
+                 stream=sname, format=fmt, path=path_of(*case), result=got.split(" ")[0] + (" " + got.split(" ")[1] if got.startswith("ok") else ""),
+                 value_type=type(val).__name__,
+                 bounds=("min" if mn is not None else "-") + ("max" if mx is not None else "-") + ("step" if st else "-"),
+                 magnitude=magnitude_of(fmt, val),
+                 ambient_origin=("caller-configured" if caller_touched else "left by the library's own calls" if ambient_before != DEFAULT_AMBIENT
+                                 else "default"),
+                 ambient_flags="+".join(ambient_before["flags"]) or "-",
+                 ambient_settings=",".join(f"{k}={ambient_before[k]}" for k in ("prec", "rounding", "Emax", "Emin", "clamp")
+                                           if ambient_before[k] != DEFAULT_AMBIENT[k]) + ("traps=" + "+".join(ambient_before["traps"])
+                                                                                          if ambient_before["traps"] != DEFAULT_AMBIENT["traps"] else "") or "-")
+
     for sname, cases in streams:
         lines = [model_line(*c) for c in cases]
-        raw = pbatch(drv, lines) if sname == "extreme" else drv.batch(lines)
+        raw = pbatch(drv, lines) if sname in ("extreme", "ambient") else drv.batch(lines)
         xpairs += zip(lines, raw)
         model = [model_canon(a) for a in raw]
         risky = [i for i, c in enumerate(cases) if dangerous(c)]
         child = dict(zip(risky, run_in_child(ctx, [cases[i] for i in risky])))
+        prefix = amb_pre if sname == "ambient" else (pre or {})
         for idx, (case, m) in enumerate(zip(cases, model)):
-            fmt, mn, mx, st, val = case
-            got = child[idx] if idx in child else impl.run(*case)
-            if idx % 5 == 0 and idx not in child:
-                direct = impl.run(*case, direct=True)
-                if direct != got:
-                    add(f"{sname}:build_update-differs", f"build_update gives {got[:80]}, check_convert_value gives {direct[:80]} on {short(case, 300)}", True,
-                        stream=sname, case=short(case, 300), impl=got, direct=direct)
-            orc = oracle(fmt, mn, mx, st, val, got)
-            crepr = dict(format=fmt, minValue=repr(mn), maxValue=repr(mx), minStep=repr(st), value=short(val, 300))
-            cj = json_case(case)
-            if orc is not None:
-                add(orc[0], orc[1], True, stream=sname, case=crepr, case_json=cj, impl=got, model=m)
-            elif got != m:
-                # the implementation satisfies the property here but left the model: look around for a failing input
-                near = None
-                if isinstance(val, (int, float)) and not isinstance(val, bool) and val == val and abs(val) != math.inf:
-                    for dv in (1, -1, 0.5, -0.5, 10, -10, 1000, -1000):
-                        g2 = impl.run(fmt, mn, mx, st, val + dv)
-                        o2 = oracle(fmt, mn, mx, st, val + dv, g2)
-                        if o2 is not None:
-                            near = (val + dv, g2, o2)
-                            break
-                if near:
-                    add(near[2][0], near[2][1], True, stream=sname, case=dict(crepr, value=repr(near[0])),
-                        case_json=json_case((fmt, mn, mx, st, near[0])), impl=near[1])
-                else:
-                    add(f"{sname}:model-mismatch", f"implementation {got[:80]} != model {m[:80]} on {short(case, 300)}", False, stream=sname, case=crepr, case_json=cj,
-                        impl=got, model=m, broken="correspondence Model/Convert.v <-> check_convert_value")
-            nontrivial = fmt == "bool" or mn is not None or mx is not None or bool(st) or got.startswith("err")
-            cov.case(short(case, 10 ** 9), nontrivial,
-                     sample=dict(stream=sname, **crepr, impl=got) if idx % 4999 == 7 else None,
-                     stream=sname, format=fmt, path=path_of(*case), result=got.split(" ")[0] + (" " + got.split(" ")[1] if got.startswith("ok") else ""),
-                     value_type=type(val).__name__,
-                     bounds=("min" if mn is not None else "-") + ("max" if mx is not None else "-") + ("step" if st else "-"),
-                     magnitude=magnitude_of(fmt, val))
+            try:
+                caller_touched = False
+                if idx in prefix:
+                    # what happened in this thread before the call: a fresh thread, then caller-side changes and rejected values
+                    AMBIENT.pristine()
+                    caller_touched = sname == "ambient" and any(kind == "A" for kind, _ in prefix[idx])
+                    for kind, arg in prefix[idx]:
+                        if kind == "A":
+                            AMBIENT.restore(arg) if set(arg) >= set(DEFAULT_AMBIENT) else AMBIENT.change(arg)
+                        else:
+                            impl.run(*arg)
+                ambient_before = AMBIENT.snapshot()
+                got = child[idx] if idx in child else impl.run(*case)
+                if idx % 5 == 0 and idx not in child:
+                    direct = impl.run(*case, direct=True)
+                    if direct != got:
+                        add(f"{sname}:build_update-differs", f"build_update gives {got[:80]}, check_convert_value gives {direct[:80]} on {short(case, 300)}",
+                            True, stream=sname, case=short(case, 300), case_json=json_case(case), ambient=ambient_before, impl=got, direct=direct)
+                process(sname, idx, case, m, got, ambient_before, caller_touched)
+            except Exception:  # noqa - the harness's own work on one case must never end the run
+                import traceback
+                add(f"harness:{sname}:case-processing-failed", f"the harness failed while handling case {short(case, 200)} (recorded as this case's "
+                                                               f"outcome; the run continues): {traceback.format_exc()[-600:]}", False,
+                    stream=sname, case=short(case, 300), broken="harness/c14.py post-processing")
     # ---- the decimal operations one by one
     ops = gen_ops(tier, rng(seed, "c14ops")) if replay_case is None else []
     oplines = [f"op {n} {p} {md} {dtok(a)}" + ("" if n in ("fix", "toint", "int") else " " + dtok(b)) for n, p, md, a, b in ops]
@@ -1067,6 +1266,11 @@ def run(ctx):
                                             f"(first: {detail_x[0]})", False, broken="extraction / ocaml driver glue", detail=detail_x[:5])
     for v in viols:
         v["payload"]["occurrences"] = seen_keys[v["key"]]
+    cov.extra["observations"] = dict(caller_decimal_context=dict(
+        note=("not violations: C14 quantifies over formats, limits and inputs, not over a decimal context the CALLER reconfigured (traps, rounding, "
+              "precision, Emax/Emin, clamp, flags).  Reproduced every run by stream `ambient`; proposed hardening: fixes/C14-own-decimal-context.patch"),
+        cases_run=sum(1 for px in AMBIENT_PREFIXES if any(k == "A" for k, _ in px)) * len(AMBIENT_CASES) if replay_case is None else 0,
+        observed={k: v for k, v in sorted(observations.items())}))
     cov.extra["exhaustive"] = True
     cov.extra["exhaustive_part"] = ("grid: every uint8 characteristic with 0 <= min <= max <= 20, every integer step 1..21 and every "
                                     "integer input -1..max+3 (inputs beyond that clamp to the same value), plus a 3/7 slice of "
